@@ -34,11 +34,11 @@ RULE = (
 )
 ASSUMPTIONS = [
     "the endpoint marks request start/end exactly where the real client's trace hooks do",
-    "every context issues at least one wire request (all operation types a composite accepts do)",
+    "leaf operations of a composite issue at least one wire request (all operation types a composite accepts do); in the tree kind a nested context may send nothing",
     "instants are dyadic rationals; exact comparison with 1e-9 tolerance",
 ]
 BUDGET = {"quick": 2500, "thorough": 20000}
-REQUIRED_CLASSES = {"concurrent-first-end-not-first-start": 100, "composite": 500, "multi-client": 500, "failing-sub-request": 200}
+REQUIRED_CLASSES = {"concurrent-first-end-not-first-start": 100, "composite": 500, "multi-client": 500, "failing-sub-request": 200, "empty-nested-context": 100}
 TOL = 1e-9
 
 DELAYS = [0, 0, 1 / 1024, 1 / 64, 1 / 8, 0.5]
@@ -57,7 +57,9 @@ def _tree(draw, depth):
     # "fails": the sub-request raises after it has been on the wire; its parent handles the error and carries on
     fails = depth < 2 and draw(st.integers(0, 5)) == 0
     if depth == 0 or draw(st.integers(0, 3)) == 0:
-        return {"mode": "leaf", "wires": draw(_wires()), "post": draw(st.sampled_from(DELAYS)), "children": [], "fails": fails}
+        # a nested context may turn out to have nothing to send (a skipped optional step): it contributes nothing to its parent
+        empty = depth < 2 and draw(st.integers(0, 7)) == 0
+        return {"mode": "leaf", "wires": [] if empty else draw(_wires()), "post": draw(st.sampled_from(DELAYS)), "children": [], "fails": fails}
     n = draw(st.integers(1, 4))
     return {
         "mode": draw(st.sampled_from(["seq", "par", "par"])),
@@ -183,6 +185,8 @@ def _run_tree_clients(trees, perf_offset):
 
 def _subtree_span(wires, path):
     mine = [(s, e) for p, s, e in wires if p[: len(path)] == path]
+    if not mine:
+        return None, None  # nothing was sent on behalf of this context
     return min(s for s, _ in mine), max(e for _, e in mine)
 
 
@@ -193,6 +197,10 @@ def _check_tree(case, obs):
     for ci, (out, wires) in enumerate(results):
         for path, (start, end) in sorted(out.items()):
             s_ref, e_ref = _subtree_span(wires, path)
+            if s_ref is None:
+                obs.check(start is None and end is None, "empty-context-has-timings", f"client {ci} context {path} sent nothing but records ({start}, {end})")
+                obs.cls("empty-nested-context")
+                continue
             obs.check(
                 start is not None and abs(start - s_ref) <= TOL,
                 "context-start-not-earliest",
@@ -223,7 +231,9 @@ def _has_failing(node):
 def _first_end_not_first_start(node, path, wires):
     found = False
     if node["mode"] == "par" and len(node["children"]) >= 2:
-        spans = [_subtree_span(wires, path + (i,)) for i in range(len(node["children"]))]
+        spans = [sp for sp in (_subtree_span(wires, path + (i,)) for i in range(len(node["children"]))) if sp[0] is not None]
+        if len(spans) < 2:
+            spans = [(0.0, 0.0), (0.0, 1.0)]
         first_end = min(range(len(spans)), key=lambda i: spans[i][1])
         if spans[first_end][0] > min(s for s, _ in spans) + TOL:
             found = True
